@@ -396,7 +396,7 @@ func judge(c *Case, dir string) (violation string, st stats) {
 					return fmt.Sprintf("op %d: stage: signature %d (%s) differs", oi, i, fl[i]), st
 				}
 			}
-			if len(fl) > 0 && len(fl) < len(request) {
+			if len(fl) < len(request) {
 				st.shortFiltered++
 			}
 			if len(fl) > 0 {
@@ -479,6 +479,11 @@ func drawCase(rt *rapid.T) *Case {
 	if rapid.IntRange(0, 7).Draw(rt, "noroot") > 0 {
 		c.Root = g.Dir(rt, "root", 2)
 	}
+	// Files whose content equals content the plans ask for (so that staging
+	// finds some of it in the root and filters the request).
+	for n := rapid.IntRange(0, 3).Draw(rt, "seeded"); n > 0; n-- {
+		c.Ops = append(c.Ops, &Op{Kind: "edit", Edit: "write", Path: "seeded" + fmt.Sprint(n), Arg: rapid.IntRange(1, 5).Draw(rt, "seeded.arg")})
+	}
 	for n := rapid.IntRange(2, 10).Draw(rt, "ops"); n > 0; n-- {
 		switch rapid.IntRange(0, 9).Draw(rt, "op") {
 		case 0, 1, 2, 3:
@@ -557,7 +562,7 @@ func TestMirroredEndpoints(t *testing.T) {
 			rec.Class("cycle")
 		}
 		if st.shortFiltered > 0 {
-			rec.Class("filtered-shorter-than-request")
+			rec.Class("stage-found-content-in-root")
 		}
 		if st.scans >= 2 && st.cycles > 0 {
 			rec.NonTrivial(ev.Hash(render(c)))
